@@ -1,4 +1,4 @@
-import MokapotVerif.Lemmas.DecoysMain
+import MokapotVerif.Lemmas.DecoysDraws
 /-!
 # C18 — Generated decoys preserve length, composition and cleavage structure
 
@@ -210,6 +210,263 @@ theorem C18_spec_checker_sound_sites [BEq α] [LawfulBEq α] {drawn : Nat → Li
   rw [C18_decoy_defined (permsOf_family reverse hp)] at h; cases h
   exact seqOK_spec hp reverse cut seq
 
+/-! ## Arbitrary enzymes (`enzyme` is any regular expression)
+
+The clauses that do not mention the enzyme class hold for every site list the regex engine
+can produce: `sites` below is `[m.end() for m in enzyme_regex.finditer(seq)] + [len(seq)]`,
+of which only `SitesOK` (non-decreasing, inside the sequence) is used. -/
+
+/-- length and composition for any enzyme -/
+theorem C18_any_enzyme_length_composition {perms : Nat → List Nat} (hp : PermFamily perms)
+    (sites : List Nat) (seq out : List α) (hok : SitesOK seq.length (0 :: sites))
+    (h : shuffleLoop perms (0 :: sites) seq = some out) :
+    out.length = seq.length ∧ out.Perm seq := by
+  rw [C18_decoy_model_eq_peptidewise hp sites seq hok] at h; cases h
+  exact ⟨specLoop_length hp _ _, specLoop_perm hp _ _⟩
+
+/-- every enzymatic peptide of the decoy is the shuffled image of the same stretch of the
+target, for any enzyme -/
+theorem C18_any_enzyme_peptidewise {perms : Nat → List Nat} (hp : PermFamily perms)
+    (sites : List Nat) (seq out : List α) (hok : SitesOK seq.length (0 :: sites))
+    (h : shuffleLoop perms (0 :: sites) seq = some out)
+    (i : Nat) (hi : i + 1 < (0 :: sites).length) :
+    slice out (0 :: sites)[i] (0 :: sites)[i + 1]
+      = shufflePeptide perms (slice seq (0 :: sites)[i] (0 :: sites)[i + 1]) := by
+  rw [C18_decoy_model_eq_peptidewise hp sites seq hok] at h; cases h
+  exact decoy_slice_sites hp sites seq hok i hi
+
+/-- first and last residue of every non-empty enzymatic peptide stay in place, for any enzyme -/
+theorem C18_any_enzyme_fixed_termini {perms : Nat → List Nat} (hp : PermFamily perms)
+    (sites : List Nat) (seq out : List α) (hok : SitesOK seq.length (0 :: sites))
+    (h : shuffleLoop perms (0 :: sites) seq = some out)
+    (i : Nat) (hi : i + 1 < (0 :: sites).length) (hne : (0 :: sites)[i] < (0 :: sites)[i + 1]) :
+    out[(0 :: sites)[i]]? = seq[(0 :: sites)[i]]? ∧
+    out[(0 :: sites)[i + 1] - 1]? = seq[(0 :: sites)[i + 1] - 1]? := by
+  have hpw := C18_any_enzyme_peptidewise hp sites seq out hok h i hi
+  have hlen := (C18_any_enzyme_length_composition hp sites seq out hok h).1
+  have hb : (0 :: sites)[i + 1] ≤ seq.length := hok.2 _ (List.getElem_mem _)
+  constructor
+  · rw [← slice_head? out _ _ hne, ← slice_head? seq _ _ hne, hpw, shufflePeptide_head?]
+  · rw [← slice_getLast? out _ _ hne (hlen ▸ hb), ← slice_getLast? seq _ _ hne hb, hpw,
+      shufflePeptide_getLast?]
+
+/-- with `reverse=True` every interior is exactly reversed, for any enzyme -/
+theorem C18_any_enzyme_reverse_interior (drawn : Nat → List Nat)
+    (sites : List Nat) (seq out : List α) (hok : SitesOK seq.length (0 :: sites))
+    (h : shuffleLoop (permsOf true drawn) (0 :: sites) seq = some out)
+    (i : Nat) (hi : i + 1 < (0 :: sites).length) :
+    slice out ((0 :: sites)[i] + 1) ((0 :: sites)[i + 1] - 1)
+      = (slice seq ((0 :: sites)[i] + 1) ((0 :: sites)[i + 1] - 1)).reverse := by
+  have hp : PermFamily (permsOf true drawn) := revPerm_family
+  have hpw := C18_any_enzyme_peptidewise hp sites seq out hok h i hi
+  have hlen := (C18_any_enzyme_length_composition hp sites seq out hok h).1
+  have hb : (0 :: sites)[i + 1] ≤ seq.length := hok.2 _ (List.getElem_mem _)
+  rw [← interior_slice out _ _ (hlen ▸ hb), ← interior_slice seq _ _ hb, hpw]
+  exact shufflePeptide_interior_rev _
+
+/-- the sites of every regex the engine evaluates left to right are well-formed, and a
+residue class with optional look-ahead is such an enzyme -/
+theorem C18_any_enzyme_sites_ok {ends : List α → List Nat} (he : EndsOK ends) (seq : List α) :
+    SitesOK seq.length (cleavageSitesOf ends seq) ∧
+    ∀ cut block : α → Bool, EndsOK (matchEnds cut block 0) ∧
+      cleavageSitesOf (matchEnds cut block 0) seq = cleavageSites cut block seq :=
+  ⟨cleavageSitesOf_ok he seq, fun cut block => ⟨matchEnds_endsOK cut block, rfl⟩⟩
+
+/-- the checker for explicit sites (driver op `spec-C18` with a site table) accepts every decoy
+the model can produce -/
+theorem C18_spec_checker_sound_any_enzyme [BEq α] [LawfulBEq α] {drawn : Nat → List Nat}
+    (hp : PermFamily drawn) (reverse : Bool) (sites : List Nat) (seq out : List α)
+    (hok : SitesOK seq.length (0 :: sites))
+    (h : shuffleLoop (permsOf reverse drawn) (0 :: sites) seq = some out) :
+    pepsOKAt (0 :: sites) reverse seq out = true := by
+  rw [C18_decoy_model_eq_peptidewise (permsOf_family reverse hp) sites seq hok] at h; cases h
+  exact pepsOKAt_spec hp reverse sites seq hok
+
+/-! ## The `perms` dict and the random generator ("any RNG state", literally)
+
+`rng k n` is what the `k`-th call of `np.random.permutation` made by this `make_decoys`
+call returns for `np.arange(n)`; `makeDecoysS` threads the `perms` dict and the call counter
+through the loops exactly like the code and also returns the number of calls made. -/
+
+/-- **Refinement.** Running `make_decoys` with the dict threaded through gives exactly what the
+stateless model gives under the final content of the dict — for every generator, enzyme and
+previous content of the output file, including the runs that raise.  (So every theorem about
+`makeDecoys`/`shuffleLoop` with a permutation family applies to the real data flow.) -/
+theorem C18_draws_refine (reverse : Bool) (rng : Nat → Nat → List Nat) (pre : List Char)
+    (ends : List Char → List Nat) (concat : Bool) (w : Nat) (old : Option (List Char))
+    (files : List (List Char)) :
+    (∀ ts, parseFasta files = some ts →
+      makeDecoysS reverse rng pre ends concat w old files
+        = (makeDecoysE (famOfDict reverse (stateAfterProteins reverse rng ends ts drawState0).1)
+            pre ends concat w files).map
+            (fun o => (o, (stateAfterProteins reverse rng ends ts drawState0).2))) ∧
+    (parseFasta files = none → makeDecoysS reverse rng pre ends concat w old files = none) := by
+  constructor
+  · intro ts hparse
+    unfold makeDecoysS makeDecoysE decoyEntriesE writeTrunc
+    rw [hparse]
+    simp only [Option.bind_some]
+    rw [shuffleProteinsS_eq reverse rng pre ends ts drawState0 _ (DictExt.refl _)]
+    cases shuffleProteinsE (famOfDict reverse (stateAfterProteins reverse rng ends ts drawState0).1)
+        pre ends ts with
+    | none => rfl
+    | some d => cases concat <;> rfl
+  · intro h
+    unfold makeDecoysS
+    rw [h]; rfl
+
+/-- a generator that returns permutations leaves a permutation family in the dict — the
+hypothesis `PermFamily` of all theorems above is what the code establishes -/
+theorem C18_draws_family (reverse : Bool) {rng : Nat → Nat → List Nat} (hr : RngOK rng)
+    (ends : List Char → List Nat) (ts : List (List Char × List Char)) :
+    PermFamily (famOfDict reverse (stateAfterProteins reverse rng ends ts drawState0).1) :=
+  famOfDict_family (stateAfterProteins_valid reverse hr ends ts drawState0 (dictValid_nil reverse))
+
+/-- reversal: the dict denotes `np.flip(np.arange(n))` for every length and the generator is
+never called, whatever it would return -/
+theorem C18_draws_reverse (rng : Nat → Nat → List Nat) (ends : List Char → List Nat)
+    (ts : List (List Char × List Char)) :
+    famOfDict true (stateAfterProteins true rng ends ts drawState0).1 = revPerm ∧
+    (stateAfterProteins true rng ends ts drawState0).2 = 0 := by
+  constructor
+  · apply famOfDict_reverse
+    intro n p h
+    -- validity in reversal mode needs nothing of the generator: `newPerm true` ignores it
+    have key : ∀ (ps : List (List Char × List Char)) (st : DrawState),
+        (∀ n p, st.1.lookup n = some p → p = revPerm n) →
+        ∀ n p, (stateAfterProteins true rng ends ps st).1.lookup n = some p → p = revPerm n := by
+      intro ps
+      induction ps with
+      | nil => intro st hv; exact hv
+      | cons q ps ih =>
+        intro st hv
+        simp only [stateAfterProteins]
+        apply ih
+        have loop : ∀ (sites : List Nat) (st : DrawState),
+            (∀ n p, st.1.lookup n = some p → p = revPerm n) →
+            ∀ n p, (stateAfterLoop true rng sites st).1.lookup n = some p → p = revPerm n := by
+          intro sites
+          induction sites with
+          | nil => intro st hv; exact hv
+          | cons s tl ihs =>
+            intro st hv
+            cases tl with
+            | nil => exact hv
+            | cons e rest =>
+              simp only [stateAfterLoop]
+              apply ihs
+              unfold stateAfterPair
+              split
+              · exact hv
+              · intro m q' hm
+                unfold permFor at hm
+                cases hl : st.1.lookup (e - 1 - (s + 1)) with
+                | some p0 => rw [hl] at hm; exact hv m q' hm
+                | none =>
+                  rw [hl] at hm
+                  simp only [permForAux] at hm
+                  by_cases hmn : m = e - 1 - (s + 1)
+                  · subst hmn
+                    rw [lookup_cons_eq] at hm
+                    cases hm; rfl
+                  · rw [lookup_cons_ne _ _ hmn] at hm
+                    exact hv m q' hm
+        exact loop _ st hv
+    have := key ts drawState0 (by intro n p h; simp [drawState0] at h) n p h
+    exact ⟨this ▸ revPerm_family n, fun _ => this⟩
+  · exact stateAfterProteins_reverse_count rng ends ts drawState0
+
+/-- one permutation per length: an entry of the dict is never replaced while the proteins of
+a call are processed (`d` is the dict at any point, the final dict still maps `n` to `p`) -/
+theorem C18_one_permutation_per_length (reverse : Bool) (rng : Nat → Nat → List Nat)
+    (ends : List Char → List Nat) (ps : List (List Char × List Char)) (st : DrawState)
+    (n : Nat) (p : List Nat) (h : st.1.lookup n = some p) :
+    (stateAfterProteins reverse rng ends ps st).1.lookup n = some p :=
+  stateAfterProteins_ext reverse rng ends ps st n p h
+
+/-- the retry loop: at most 100 calls per new length; the permutation kept is the first drawn
+one that is not the identity; it is the identity only if all 100 draws were -/
+theorem C18_retry_loop (rng : Nat → Nat → List Nat) (n k : Nat) :
+    k ≤ (newPerm false rng n k).2 ∧ (newPerm false rng n k).2 ≤ k + 100 ∧
+    ((newPerm false rng n k).1 = List.range n → ∀ j, j < 100 → rng (k + j) n = List.range n) ∧
+    (∀ j, j < 100 → (∀ i, i < j → rng (k + i) n = List.range n) → rng (k + j) n ≠ List.range n →
+      newPerm false rng n k = (rng (k + j) n, k + j + 1)) := by
+  unfold newPerm
+  simp only [Bool.false_eq_true, if_false]
+  refine ⟨(retryLoop_count rng n 100 k _).1, (retryLoop_count rng n 100 k _).2, ?_, ?_⟩
+  · intro h; exact (retryLoop_identity rng n 100 k _ h).2
+  · intro j hj hid hne; exact retryLoop_first rng n 100 k j hj hid hne
+
+/-- **`make_decoys` for any RNG state, any enzyme, any previous content of the output file.**
+Whenever the inputs parse (to sequences without `>`), the call succeeds, and re-reading what it
+wrote yields the targets (concatenated mode) followed by one decoy per target — `prefix + name`
+with the peptide-wise shuffled sequence under a permutation family `perms` (the reversal family
+under `reverse`) — and the file-level checker behind `spec-C18` accepts it. -/
+theorem C18_make_decoys_any_rng (reverse : Bool) {rng : Nat → Nat → List Nat} (hr : RngOK rng)
+    (pre : List Char) (hpre : NameOK pre) {ends : List Char → List Nat} (he : EndsOK ends)
+    (concat : Bool) (w : Nat) (hw : 1 ≤ w) (old : Option (List Char))
+    (files : List (List Char)) (ts : List (List Char × List Char))
+    (hparse : parseFasta files = some ts) (hgt : ∀ t ∈ ts, '>' ∉ t.2) :
+    ∃ out k perms, makeDecoysS reverse rng pre ends concat w old files = some (out, k) ∧
+      PermFamily perms ∧ (reverse = true → perms = revPerm ∧ k = 0) ∧
+      parseFasta [out] = some ((if concat then ts else []) ++ ts.map (decoySpecE perms pre ends)) ∧
+      fileOK pre (cleavageSitesOf ends) none reverse concat ts
+        ((if concat then ts else []) ++ ts.map (decoySpecE perms pre ends)) = true := by
+  have hv := stateAfterProteins_valid reverse hr ends ts drawState0 (dictValid_nil reverse)
+  have hp := C18_draws_family reverse hr ends ts
+  obtain ⟨hmk, hrr⟩ := makeDecoysE_reread hp pre hpre he concat w hw files ts hparse hgt
+  refine ⟨_, (stateAfterProteins reverse rng ends ts drawState0).2,
+    famOfDict reverse (stateAfterProteins reverse rng ends ts drawState0).1, ?_, hp, ?_, hrr, ?_⟩
+  · rw [(C18_draws_refine reverse rng pre ends concat w old files).1 ts hparse, hmk]; rfl
+  · intro hrev; subst hrev
+    exact C18_draws_reverse rng ends ts
+  · have := fileOK_spec hp reverse concat pre he ts
+    rwa [famOfDict_permsOf hv] at this
+
+/-- the same for a residue-class enzyme, where the checker also demands identical cleavage
+sites in target and decoy -/
+theorem C18_make_decoys_any_rng_class (reverse : Bool) {rng : Nat → Nat → List Nat} (hr : RngOK rng)
+    (pre : List Char) (hpre : NameOK pre) (cut : Char → Bool)
+    (concat : Bool) (w : Nat) (hw : 1 ≤ w) (old : Option (List Char))
+    (files : List (List Char)) (ts : List (List Char × List Char))
+    (hparse : parseFasta files = some ts) (hgt : ∀ t ∈ ts, '>' ∉ t.2) :
+    ∃ out k os, makeDecoysS reverse rng pre (matchEnds cut noBlock 0) concat w old files = some (out, k) ∧
+      parseFasta [out] = some os ∧
+      fileOK pre (cleavageSites cut noBlock) (some cut) reverse concat ts os = true := by
+  have hv := stateAfterProteins_valid reverse hr (matchEnds cut noBlock 0) ts drawState0 (dictValid_nil reverse)
+  have hp := C18_draws_family reverse hr (matchEnds cut noBlock 0) ts
+  obtain ⟨hmk, hrr⟩ := makeDecoysE_reread hp pre hpre (matchEnds_endsOK cut noBlock) concat w hw files ts hparse hgt
+  refine ⟨_, (stateAfterProteins reverse rng (matchEnds cut noBlock 0) ts drawState0).2, _, ?_, hrr, ?_⟩
+  · rw [(C18_draws_refine reverse rng pre _ concat w old files).1 ts hparse, hmk]; rfl
+  · have := fileOK_spec_class hp reverse concat pre cut ts
+    rwa [famOfDict_permsOf hv, ← decoySpecE_class] at this
+
+/-- **the call with every option left at its default** (`make_decoys(fasta, out_file)`):
+prefix `decoy_`, enzyme `[KR]`, shuffling, concatenated — targets first and unchanged, then the
+decoys, all clauses including identical `[KR]` sites -/
+theorem C18_default_call {rng : Nat → Nat → List Nat} (hr : RngOK rng) (old : Option (List Char))
+    (files : List (List Char)) (ts : List (List Char × List Char))
+    (hparse : parseFasta files = some ts) (hgt : ∀ t ∈ ts, '>' ∉ t.2) :
+    ∃ out k os, makeDecoysDefault rng old files = some (out, k) ∧ parseFasta [out] = some os ∧
+      os.take ts.length = ts ∧
+      fileOK defaultPrefix (cleavageSites defaultCut noBlock) (some defaultCut) false true ts os = true := by
+  have hpre : NameOK defaultPrefix := by unfold NameOK defaultPrefix; decide
+  obtain ⟨out, k, os, h1, h2, h3⟩ := C18_make_decoys_any_rng_class false hr defaultPrefix hpre defaultCut
+    true wrapWidth (by unfold wrapWidth; omega) old files ts hparse hgt
+  refine ⟨out, k, os, h1, h2, ?_, h3⟩
+  unfold fileOK at h3
+  simp only [Bool.and_eq_true, beq_iff_eq, Bool.or_eq_true, Bool.not_eq_true'] at h3
+  rcases h3.1.1.2 with h | h
+  · cases h
+  · exact h
+
+/-- the content of the output file does not depend on what the file held before -/
+theorem C18_output_replaces_existing_file (reverse : Bool) (rng : Nat → Nat → List Nat) (pre : List Char)
+    (ends : List Char → List Nat) (concat : Bool) (w : Nat) (old old' : Option (List Char))
+    (files : List (List Char)) :
+    makeDecoysS reverse rng pre ends concat w old files
+      = makeDecoysS reverse rng pre ends concat w old' files := rfl
+
 /-! ## Non-vacuity -/
 
 
@@ -241,5 +498,41 @@ example : ∀ e ∈ [(['s', 'p', '|', 'A'], ['M', 'K', 'A', 'C', 'D', 'E', 'K', 
 #guard makeDecoys revPerm "decoy_".toList kr noBlock true 70 [[]] == none
 #guard parseFasta [renderFasta 3 [("x".toList, "ABCDEFGH".toList), ("y".toList, [])]]
     == some [("x".toList, "ABCDEFGH".toList), ("y".toList, [])]
+
+-- new dimensions: generator oracle, arbitrary enzymes, defaults, existing output file
+/-- a generator whose even-numbered calls return the identity (so the retry loop is exercised) -/
+def rngAlt (k n : Nat) : List Nat := if k % 2 = 0 then List.range n else rot n
+example : RngOK rngAlt := fun k n => by
+  unfold rngAlt; split
+  · exact List.Perm.refl _
+  · exact rot_family n
+example : RngOK (fun _ n => List.range n) := fun _ _ => List.Perm.refl _
+example : EndsOK (matchEnds kr (· = 'P') 0) := matchEnds_endsOK _ _
+/-- a non-class "enzyme": one cut in the middle of every sequence -/
+example : EndsOK (fun s : List Char => [s.length / 2]) := by
+  intro s; simp; omega
+example : SitesOK 6 [0, 0, 3, 3, 4, 6, 6] := (sitesOKb_iff _ _).mp (by decide)
+example : NameOK defaultPrefix := by unfold NameOK defaultPrefix; decide
+
+#guard (makeDecoysS false rngAlt "decoy_".toList (matchEnds kr noBlock 0) false 70 none
+    [">x\nABCDEFGHKXYZW\n".toList]).map (fun r => (String.ofList r.1, r.2))
+  == some (">decoy_x\nACDEFGHBKXZYW", 4)          -- two lengths, each: identity drawn first, then kept draw
+#guard (makeDecoysS false (fun _ n => List.range n) "d_".toList (matchEnds kr noBlock 0) false 70 none
+    [">x\nABCDEFGHK\n>y\nABCDEFGHK".toList]).map (fun r => (String.ofList r.1, r.2))
+  == some (">d_x\nABCDEFGHK\n>d_y\nABCDEFGHK", 100)  -- 100 identity draws, once per length, then given up
+#guard (makeDecoysS true rngAlt "decoy_".toList (matchEnds kr noBlock 0) true 70 (some "stale".toList)
+    [">x\nABCDEFGHKXYZW\n".toList]).map (fun r => (String.ofList r.1, r.2))
+  == some (">x\nABCDEFGHKXYZW\n>decoy_x\nAHGFEDCBKXZYW", 0)
+#guard (makeDecoysDefault rngAlt none [">x d\nABCDEFGHRXYZW\n".toList]).map (fun r => (String.ofList r.1, r.2))
+  == some (">x\nABCDEFGHRXYZW\n>decoy_x\nACDEFGHBRXZYW", 4)
+-- the two-letter enzyme `KR` on "AAKRBBBBKRCC": ends [4, 10]
+#guard (makeDecoysS true rngAlt "r_".toList (fun _ => [4, 10]) false 70 none
+    [">x\nAAKRBCDEKRCC\n".toList]).map (fun r => String.ofList r.1) == some ">r_x\nAKARBKEDCRCC"
+#guard pepsOKAt [0, 4, 10, 12] true "AAKRBCDEKRCC".toList "AKARBKEDCRCC".toList
+#guard !pepsOKAt [0, 4, 10, 12] true "AAKRBCDEKRCC".toList "AAKBRCDEKRCC".toList
+#guard fileOK "d_".toList (cleavageSites kr noBlock) (some kr) true true
+    [("x".toList, "ABCDEK".toList)] [("x".toList, "ABCDEK".toList), ("d_x".toList, "AEDCBK".toList)]
+#guard !fileOK "d_".toList (cleavageSites kr noBlock) (some kr) true true
+    [("x".toList, "ABCDEK".toList)] [("d_x".toList, "AEDCBK".toList), ("x".toList, "ABCDEK".toList)]
 
 end Mk.Decoys
